@@ -54,7 +54,7 @@ func (p *Prog) CallGraph() *Graph {
 		if !p.InModule(fn) {
 			continue
 		}
-		Instrs(fn, func(in ssa.Instruction) {
+		InstrsShallow(fn, func(in ssa.Instruction) {
 			for _, op := range in.Operands(nil) {
 				if *op == nil {
 					continue
